@@ -8,7 +8,10 @@ import ast
 import re
 from collections import OrderedDict
 
-NONE_STR = "```None```"
+try:  # the None marker depends on the interpreter version (```(None)``` on 3.9+)
+    from cdd.shared.ast_utils import NoneStr as NONE_STR
+except Exception:  # pragma: no cover
+    NONE_STR = "```(None)```"
 
 NAMES = [
     "alpha", "beta", "gamma", "delta", "eps", "zeta", "eta", "theta", "iota", "kappa",
@@ -138,8 +141,9 @@ def make_param(r, tkind, dkind, doc_kind="plain"):
                             stop=True if doc_kind == "stop" else None)
     p["typ"] = typ
     d = make_default(r, typ, dkind)
-    if d is None:  # kind not applicable to this type: fall back to an applicable one
-        for alt in admissible_default_kinds(typ)[1:]:
+    if d is None:  # kind not applicable to this type: fall back to an applicable one (plain kinds first)
+        alts = admissible_default_kinds(typ)[1:]
+        for alt in sorted(alts, key=lambda k: k in ("none", "code", "emptystr", "strdot")):
             d = make_default(r, typ, alt)
             if d is not None:
                 break
@@ -154,7 +158,7 @@ def default_kind_of(p):
     if "default" not in p:
         return "absent"
     d = p["default"]
-    if d == NONE_STR or d is None:
+    if d is None or (isinstance(d, str) and d in (NONE_STR, "```None```", "```(None)```")):
         return "none"
     if isinstance(d, bool):
         return "bool"
@@ -238,11 +242,12 @@ def rand_ir(r, nparams=None, type_kinds=TYPE_KINDS, default_kinds=None, suffix_d
         tkind = r.choice(type_kinds)
         rp = make_param(r, tkind, "absent", r.choice(doc_kinds))
         if return_default:
+            # a return entry's default is the returned *expression*, carried code-quoted in the IR
             typ = rp["typ"]
             for alt in admissible_default_kinds(typ)[1:]:
                 d = make_default(r, typ, alt)
-                if d is not None and alt not in ("none", "code", "emptystr"):
-                    rp["default"] = d
+                if d is not None and alt not in ("none", "code", "emptystr", "strdot", "strspace", "strtilde"):
+                    rp["default"] = "```%r```" % (d,)
                     break
         ret = OrderedDict([("return_type", rp)])
     return make_ir(r, params, name=name, returns=ret)
